@@ -316,8 +316,8 @@ pub fn minimise(plan: &IoPlan, viol: &Violation) -> (IoPlan, Violation, usize) {
                 VDesc::Fr(_) => vec![VDesc::Fr(format!("{:064x}", 1))],
                 VDesc::Fq12(_) => vec![VDesc::Fq12("one".into()), VDesc::Fq12("seed:1".into())],
                 VDesc::Pt { a, .. } => vec![
-                    VDesc::Pt { a: format!("{:064x}", 1), z: 0, neg: false },
-                    VDesc::Pt { a: a.clone(), z: 0, neg: false },
+                    VDesc::Pt { a: format!("{:064x}", 1), z: 0, neg: false, via: 0 },
+                    VDesc::Pt { a: a.clone(), z: 0, neg: false, via: 0 },
                 ],
             };
             for sv in simple {
